@@ -234,6 +234,24 @@ func TestZZVerifC05(t *testing.T) {
 					if resp.Results != nil {
 						run.Violation("C05:abort:results-returned", "aborted transaction returned results", wit())
 					}
+					// the guards up to the failing operation, against the independent statement of when
+					// a guard has to fail (walk: one operation at a time on a twin)
+					gw := newWorld()
+					gw.apply(cmds, idxs)
+					for _, op := range v {
+						must, why := guardMustFail(gw.r.State(), op)
+						r := runTxn(gw, idx+1, structs.TxnOps{op})
+						if must {
+							run.Count("guards_that_must_fail_checked")
+							if len(r.Errors) == 0 {
+								run.Violation("C05:guard-must-fail-but-passed:"+classOf(op), fmt.Sprintf("operation %s passed its check although %s", classOf(op), why), wit())
+							}
+						}
+						if len(r.Errors) > 0 {
+							break
+						}
+					}
+					gw.r.Close()
 					// non-trivial: >=2 mutating ops before the failing one
 					mut := 0
 					for i := 0; i < first && i < len(v); i++ {
@@ -256,7 +274,15 @@ func TestZZVerifC05(t *testing.T) {
 					var twinResults structs.TxnResults
 					twinFailed := false
 					for _, op := range v {
+						must, why := guardMustFail(b.r.State(), op)
 						r := runTxn(b, idx+1, structs.TxnOps{op})
+						if must {
+							run.Count("guards_that_must_fail_checked")
+						}
+						if must && len(r.Errors) == 0 {
+							// (never reached for a committed list on a correct tree: the op would have aborted it)
+							run.Violation("C05:guard-must-fail-but-passed:"+classOf(op), fmt.Sprintf("operation %s passed its check although %s; the transaction was committed instead of rolled back", classOf(op), why), wit())
+						}
 						if len(r.Errors) > 0 {
 							twinFailed = true
 							run.Violation("C05:commit:op-fails-alone:"+classOf(op), fmt.Sprintf("operation %s succeeded inside the transaction but fails when applied on its own after the preceding operations: %s", classOf(op), core.JSON(r.Errors)), wit())
@@ -298,9 +324,49 @@ func TestZZVerifC05(t *testing.T) {
 	run.Floor("txn_committed", 100)
 	run.Floor("aborted_after_>=2_mutations", 50)
 	run.Floor("read_only_txn", 10)
+	run.Floor("guards_that_must_fail_checked", 50)
 	if run.Finish() == 1 {
 		t.Fail()
 	}
+}
+
+// guardMustFail is an independent statement of when a KV guard has to fail, evaluated on the state the
+// operation sees (the twin has applied the preceding operations of the list).
+func guardMustFail(s *state.Store, op *structs.TxnOp) (bool, string) {
+	if op == nil || op.KV == nil {
+		return false, ""
+	}
+	d := op.KV.DirEnt
+	_, e, err := s.KVSGet(nil, d.Key, &d.EnterpriseMeta)
+	if err != nil {
+		return false, ""
+	}
+	switch op.KV.Verb {
+	case api.KVCAS:
+		if d.ModifyIndex == 0 && e != nil {
+			return true, "index 0 means create-only and the key exists"
+		}
+		if d.ModifyIndex != 0 && (e == nil || e.ModifyIndex != d.ModifyIndex) {
+			return true, fmt.Sprintf("the given index %d is not the key's modify index", d.ModifyIndex)
+		}
+	case api.KVDeleteCAS:
+		if e != nil && e.ModifyIndex != d.ModifyIndex {
+			return true, fmt.Sprintf("the given index %d is not the key's modify index %d", d.ModifyIndex, e.ModifyIndex)
+		}
+	case api.KVCheckIndex:
+		if e == nil || e.ModifyIndex != d.ModifyIndex {
+			return true, fmt.Sprintf("the given index %d is not the key's modify index", d.ModifyIndex)
+		}
+	case api.KVCheckNotExists:
+		if e != nil {
+			return true, "the key exists"
+		}
+	case api.KVCheckSession:
+		if e == nil || e.Session != d.Session {
+			return true, "the key is not held by the given session"
+		}
+	}
+	return false, ""
 }
 
 // usageCounts reduces the usage table to (id, count>0): one transaction and the same operations
